@@ -28,8 +28,8 @@ def build(num, sub, ver, pad, tail):
     if num == 4076:
         v, n = pinned.header(num, sub, ver)
         v = (v << 1) | (pad & 1)
-        return v.to_bytes(3, "big") + tail
-    return ((num << 4) | pad).to_bytes(2, "big") + tail
+        return v.to_bytes(3, "big") + tail[:1020]
+    return ((num << 4) | pad).to_bytes(2, "big") + tail[:1021]
 
 
 def judge(case):
@@ -50,7 +50,7 @@ def judge(case):
     num, sub, ver, pad = case["num"], case.get("sub"), case.get("ver", 0), case.get("pad", 0)
     payload = build(num, sub, ver, pad, case["tail"])
     want = f"4076_{sub:03d}" if num == 4076 else str(num)
-    assert pinned.ref_identity(payload) == want
+    core.require(pinned.ref_identity(payload) == want, "C15 reference identity")
     defined = (
         want in RTCM_PAYLOADS_GET or want in RTCM_PAYLOADS_GET_MSM or want in RTCM_PAYLOADS_GET_IGS
     )
@@ -130,6 +130,29 @@ def run(tier, seed, t0):
     allc = list(cases(tier))
     core.check_deterministic(judge, allc[len(allc) // 3])
     st = core.pmap(_work, core.chunks(allc, 2000))
+    # history sweeps in ONE process: the same headers again in other orders, so that a lookup
+    # memoised under too coarse a key (first-seen wins) meets its colliding partner
+    fp = bytes((37 * i + 11) & 0xFF for i in range(9))
+    orders = []
+    subs = list(range(256))
+    orders.append([{"num": 4076, "sub": x, "ver": v, "pad": 0, "tail": fp}
+                   for s0 in range(128) for x in (s0, s0 + 128) for v in (0,)])
+    orders.append([{"num": 4076, "sub": x, "ver": 5, "pad": 1, "tail": fp}
+                   for s0 in range(128) for x in (s0 + 128, s0)])
+    orders.append([{"num": 4076, "sub": int(f"{x:08b}"[::-1], 2), "ver": 0, "pad": 0, "tail": fp}
+                   for x in subs])
+    nums = [n for n in range(4096) if n != 4076]
+    orders.append([{"num": n, "pad": 0, "tail": fp} for n in reversed(nums)])
+    orders.append([{"num": int(f"{x:012b}"[::-1], 2), "pad": 0xF, "tail": fp} for x in range(4096)
+                   if int(f"{x:012b}"[::-1], 2) != 4076])
+    orders.append([{"num": n ^ m, "pad": 0, "tail": b"\x00" * 125}
+                   for n in range(0, 4096, 1) for m in (0,) if (n ^ m) != 4076][::-1])
+    nseq = 0
+    for order in orders:
+        for case in order:
+            st.add(case, judge(case))
+            nseq += 1
+    st.extra["single_process_history_sweep_cases"] = nseq
     return core.finish(
         "C15", tier, seed, LEVEL, st, RULE, t0,
         assumptions=[
